@@ -82,6 +82,7 @@ type qjob struct {
 	polMin    int
 	polPermit bool
 	items     []qitem
+	target    string // how the route's target is written (%s = host:port); "" = grpc://%s
 
 	b       *qbackend
 	obs     []string
@@ -424,6 +425,16 @@ func quietJobs(run *vh.Run, r *rand.Rand) []*qjob {
 		add(&qjob{class: "quiet-direct-dormant", direct: true, ka: ka10(), polMin: 5, items: []qitem{call(c(M())), gap(23), call(c(M(), Q(23), M())), gap(13), call(c(M()))}})
 		add(&qjob{class: "quiet-direct-permit-without-stream", direct: true, ka: &kaParams{10, 5, true}, polMin: 5, items: []qitem{call(c(M())), gap(long), call(c(M()))}})
 	}
+	// ---- through the proxy, the backend registered without proto=grpc: the consul registry writes
+	// http://host:port/ for it, `route add` takes any scheme; the call is silent across several
+	// cleanup passes of the pool (own random source: the histories above do not change) ----
+	r2 := rand.New(rand.NewSource(run.Seed*49979687 + 16))
+	c2 := func(shape ...qphase) *qcallSpec { return qGenCall(r2, "", shape) }
+	add(&qjob{class: "quiet-proxy-stream-http-target", stock: true, target: "http://%s/", items: []qitem{call(c2(H(), M(), Q(12+r2.Intn(4)), M()))}})
+	if run.Thorough() {
+		add(&qjob{class: "quiet-proxy-history-tcp-target", stock: true, target: "tcp://%s", items: []qitem{call(c2(M())), gap(12 + r2.Intn(3)), call(c2(H(), M(), Q(12+r2.Intn(4)), M()))}})
+		add(&qjob{class: "quiet-proxy-stream-http-target", stock: true, target: "http://%s", items: []qitem{call(c2(M(), Q(long-5-r2.Intn(8)), M()))}})
+	}
 	for i, j := range jobs {
 		j.finish(i)
 	}
@@ -607,6 +618,10 @@ func startQuiet(run *vh.Run) *quietRun {
 		var sb strings.Builder
 		for i, j := range qr.jobs {
 			if !j.direct {
+				if j.target != "" {
+					fmt.Fprintf(&sb, "route add quiet%d /quiet.J%d/ %s\n", i, i, fmt.Sprintf(j.target, j.b.addr))
+					continue
+				}
 				fmt.Fprintf(&sb, "route add quiet%d /quiet.J%d/ %s opts \"proto=grpc\"\n", i, i, j.b.url)
 			}
 		}
